@@ -242,12 +242,28 @@ def oracle(ctx, hints, broken):
     except Exception as ex:
         import traceback
         viol, n = [dict(what=f'C09 oracle raised {type(ex).__name__}: {ex}', input=dict(kind='raise', trace=traceback.format_exc()[-800:]), signature=dict(op='raise'))], 1
+    # the recursions apply expectations / forward steps along ANY state dimension through utilities/multidim.py (discrete-choice stages on the third dimension included):
+    # the dimension-wise products vs explicit einsum formulas on arrays of 1-4 dimensions (shared with C08)
+    try:
+        from props import C08 as P8
+        nr = np.random.default_rng(ctx['seed'] + 9)
+        for _ in range(120):
+            n += 1
+            v = P8.check_multidim(ctx['rng'], nr) or (P8.check_dchoice(ctx['rng'], nr) if _ % 4 == 0 else None)
+            if v:
+                C.push(viol, dict(v, signature=dict(v.get('signature', {}), via='C09')))
+    except Exception as ex:
+        import traceback
+        C.push(viol, dict(what=f'C09 multidim oracle raised {type(ex).__name__}: {ex}', input=dict(kind='raise', trace=traceback.format_exc()[-600:]), signature=dict(op='raise', where='multidim')))
     return dict(evaluations=n, violations=viol,
-                rule='one-asset, endogenous-labour and two-asset shipped households (small grids), shocks to prices, preferences, Markov-process parameters, a borrowing limit moved below and above the bottom of the grid (off-grid policies), a directly '
+                rule='dimension-wise products of utilities/multidim.py on arrays of 1-4 dimensions vs explicit einsum; one-asset, endogenous-labour and two-asset shipped households (small grids), shocks to prices, preferences, Markov-process parameters, a borrowing limit moved below and above the bottom of the grid (off-grid policies), a directly '
                      'shocked Markov matrix, distinct initial steady state: policies, value derivatives, outputs, D, Dbeg and aggregates vs an independent numpy recursion; '
                      'stage-block rendition vs the backward-function block incl. pulses that are zero at early dates; steady-state argument untouched')
 
 
 def replay(rp):
+    if (rp.get('input') or {}).get('kind') in ('multidim', 'dchoice'):
+        from props import C08 as P8
+        return P8.replay(rp)
     v = check(C.Rng(0), False)[0]
     return v[0] if v else None
